@@ -530,6 +530,14 @@ func (s *State) havocLocation(env *SpecEnv, m string, sp *FuncSpec) {
 		s.havocAllHeap("modifies heap")
 		return
 	}
+	if strings.HasPrefix(m, "every ") {
+		cn, cs, err := c.everyComp(env, m)
+		if err != nil {
+			panic(evalErr(err.Error()))
+		}
+		s.setComp(cn, cs, s.freshConst("hvE", cs))
+		return
+	}
 	star := false
 	if strings.HasSuffix(m, "[*]") {
 		star = true
